@@ -3,6 +3,7 @@
 usage: python -m vf.det_worker <calls.json> <out.json> <mode> <shuffle_seed>
   mode = plain | shuffled (first serve a seed-shuffled permutation of the same calls, discard, clean up, then record in order)
        | gather (all tool calls of the batch as tasks of one event loop)
+       | coldthreads (the first eight calls of a fresh process made at once by eight threads released from one barrier)
        | threads (all calls, in a seed-shuffled order, from four OS threads sharing the tool instances; GIL switch interval 1 us)
 The process configuration (PYTHONHASHSEED, cwd, LANG/LC_ALL) is set by the parent.
 """
@@ -112,6 +113,37 @@ def main():
                 results.append("raised:" + type(r).__name__ + ":" + str(r)[:300] if isinstance(r, BaseException) else ser(r))
             else:
                 results.append(run_one(c))
+    elif mode == "coldthreads":
+        # cold start under contention: modules are imported (no import lock in the way), nothing has been tokenised, parsed
+        # or validated yet in this process, and eight threads released by one barrier make the very first calls at once;
+        # the remaining calls follow in order
+        import threading
+
+        import octave_mcp.core.emitter  # noqa: F401
+        import octave_mcp.core.parser  # noqa: F401
+        import octave_mcp.core.validator  # noqa: F401
+        import octave_mcp.mcp.compile_grammar  # noqa: F401
+        import octave_mcp.mcp.eject  # noqa: F401
+        import octave_mcp.mcp.validate  # noqa: F401
+        import octave_mcp.mcp.write  # noqa: F401
+
+        sys.setswitchinterval(1e-6)
+        first = [i for i, c in enumerate(calls) if not (c.get("args", {}).get("target_path"))][:8]
+        rnd = random.Random(sseed)
+        rnd.shuffle(first)
+        got = {}
+        barrier = threading.Barrier(len(first))
+
+        def cold(i):
+            barrier.wait()
+            got[i] = run_one(calls[i])
+
+        ths = [threading.Thread(target=cold, args=(i,)) for i in first]
+        for t in ths:
+            t.start()
+        for t in ths:
+            t.join()
+        results = [got[i] if i in got else run_one(c) for i, c in enumerate(calls)]
     elif mode == "threads":
         # every call from one of four OS threads sharing the tool instances, with a very short GIL switch interval
         from concurrent.futures import ThreadPoolExecutor
